@@ -7,6 +7,7 @@ package hn
 import (
 	"context"
 	"fmt"
+	"sort"
 
 	el "github.com/hashicorp/eventlogger"
 	"verif/vrt"
@@ -40,6 +41,8 @@ type Inv struct {
 	InTime  bool // CreatedAt non-zero
 	Out     *el.Event
 	OutErr  error
+	InFP    string // content of the event at call time / of the returned event at return time: a node
+	OutFP   string // must receive exactly what its predecessor returned, not just the same pointer
 	CallSeq int
 	RetSeq  int
 	Done    bool
@@ -71,6 +74,7 @@ func (l *Log) callTag(node, tag string, e *el.Event) int {
 		inv.InType, inv.InPay = e.Type, e.Payload
 		inv.InFmtOK = e.Formatted != nil && len(e.Formatted) == 0
 		inv.InTime = !e.CreatedAt.IsZero()
+		inv.InFP = fingerprint(e)
 	}
 	return i
 }
@@ -83,6 +87,25 @@ func (l *Log) ret(i int, out *el.Event, err error) {
 	l.seq++
 	inv := &l.invs[i]
 	inv.Out, inv.OutErr, inv.RetSeq, inv.Done = out, err, l.seq, true
+	if out != nil {
+		inv.OutFP = fingerprint(out)
+	}
+}
+
+// fingerprint renders what a node can observe of an event.
+//
+//go:norace
+func fingerprint(e *el.Event) string {
+	keys := make([]string, 0, len(e.Formatted))
+	for k := range e.Formatted {
+		keys = append(keys, k)
+	}
+	sort.Strings(keys)
+	s := fmt.Sprintf("type=%q created=%d payload=%T:%v formats=[", e.Type, e.CreatedAt.UnixNano(), e.Payload, e.Payload)
+	for _, k := range keys {
+		s += fmt.Sprintf("%s=%q ", k, e.Formatted[k])
+	}
+	return s + "]"
 }
 
 //go:norace
@@ -143,7 +166,9 @@ func (n *Node) Process(ctx context.Context, e *el.Event) (*el.Event, error) {
 	case Pass:
 		out = e
 	case Replace:
-		out = &el.Event{Type: e.Type, CreatedAt: e.CreatedAt, Formatted: map[string][]byte{}, Payload: fmt.Sprintf("repl-%s-%d", n.Name, n.nextSerial())}
+		// a replacement that shares nothing with the event it replaces: no type, no creation time, its own
+		// format table; whatever it looks like, the next node must receive exactly this
+		out = &el.Event{Formatted: map[string][]byte{"by": []byte(n.Name)}, Payload: fmt.Sprintf("repl-%s-%d", n.Name, n.nextSerial())}
 	case Drop:
 	case Err:
 		err = n.TheErr
